@@ -35,7 +35,7 @@ var (
 )
 
 type stats struct {
-	files, syncImports, recvs, sends, selects, ranges, gos, sleeps, afterfuncs, captured, mapwin, osx int
+	files, syncImports, recvs, sends, selects, ranges, gos, sleeps, afterfuncs, captured, mapwin, osx, maprange, maprangeSkipped int
 	lint                                                                                              []string
 }
 
@@ -103,8 +103,8 @@ func main() {
 	for _, l := range st.lint {
 		fmt.Fprintln(os.Stderr, "simrewrite: lint:", l)
 	}
-	fmt.Printf("simrewrite: files=%d sync=%d recv=%d send=%d select=%d rangechan=%d go=%d sleep=%d afterfunc=%d captured-assign=%d map-window=%d simos=%d\n",
-		st.files, st.syncImports, st.recvs, st.sends, st.selects, st.ranges, st.gos, st.sleeps, st.afterfuncs, st.captured, st.mapwin, st.osx)
+	fmt.Printf("simrewrite: files=%d sync=%d recv=%d send=%d select=%d rangechan=%d go=%d sleep=%d afterfunc=%d captured-assign=%d map-window=%d simos=%d map-range=%d (not orderable: %d)\n",
+		st.files, st.syncImports, st.recvs, st.sends, st.selects, st.ranges, st.gos, st.sleeps, st.afterfuncs, st.captured, st.mapwin, st.osx, st.maprange, st.maprangeSkipped)
 }
 
 type rewriter struct {
@@ -282,6 +282,14 @@ func (r *rewriter) run() bool {
 				r.st.ranges++
 				r.changed = true
 			} else if r.isMap(x.X) {
+				// R6: deterministic iteration order inside a simulation
+				if mt, ok := r.pkg.TypesInfo.TypeOf(x.X).Underlying().(*types.Map); ok && orderable(mt.Key(), 0) {
+					x.X = &ast.CallExpr{Fun: r.rt("OrderedMap"), Args: []ast.Expr{x.X}}
+					r.st.maprange++
+					r.changed = true
+				} else {
+					r.st.maprangeSkipped++
+				}
 				// goroutine ids must not depend on map iteration order
 				hasGo := false
 				ast.Inspect(x.Body, func(n ast.Node) bool {
@@ -496,6 +504,27 @@ func pure(e ast.Expr) bool {
 		return pure(x.X)
 	case *ast.IndexExpr:
 		return pure(x.X) && pure(x.Index)
+	}
+	return false
+}
+
+// orderable: the key type has a canonical %v rendering (no pointers, interfaces, channels).
+func orderable(t types.Type, depth int) bool {
+	if depth > 4 {
+		return false
+	}
+	switch u := t.Underlying().(type) {
+	case *types.Basic:
+		return u.Kind() != types.UnsafePointer && u.Kind() != types.Uintptr
+	case *types.Struct:
+		for i := 0; i < u.NumFields(); i++ {
+			if !orderable(u.Field(i).Type(), depth+1) {
+				return false
+			}
+		}
+		return true
+	case *types.Array:
+		return orderable(u.Elem(), depth+1)
 	}
 	return false
 }
